@@ -644,9 +644,15 @@ class _Exporter:
         }
         sindent = _SINGLE_INDENT * indent
         if self.use_operators and node.op_type in ops:
+
+            def operand(x):
+                text = self._translate_onnx_var_ref(x)
+                # a negative literal binds weaker than `**` on its left: keep it one operand
+                return f"({text})" if text.startswith("-") else text
+
             return (
                 f"{sindent}{self._translate_onnx_var(node.output[0])} = "
-                f"{(f' {ops[node.op_type]} ').join(map(self._translate_onnx_var_ref, node.input))}"
+                f"{(f' {ops[node.op_type]} ').join(map(operand, node.input))}"
             )
         callee_name = self._make_callee_name(
             node.domain, opsets[node.domain], node.op_type, node=True
